@@ -326,6 +326,15 @@ def _coerce_iterable_units(input_object, registry=None):
     if isinstance(input_object, np.ndarray):
         ret = input_object
     elif _iterable(input_object):
+        if any(isinstance(o, (list, tuple)) for o in input_object):
+            # nested sequences: coerce the rows first so that quantities held
+            # deeper than the top level keep (and are checked for) their units
+            input_object = [
+                _coerce_iterable_units(o, registry)
+                if isinstance(o, (list, tuple))
+                else o
+                for o in input_object
+            ]
         if any(isinstance(o, unyt_array) for o in input_object):
             ff = getattr(input_object[0], "units", NULL_UNIT)
             if any(ff != getattr(_, "units", NULL_UNIT) for _ in input_object):
